@@ -127,8 +127,12 @@ def main(argv=None):
             return 1
         return 0
 
-    os.makedirs(os.path.join(ROOT, 'evidence'), exist_ok=True)
-    os.makedirs(os.path.join(ROOT, 'replays'), exist_ok=True)
+    # evidence/ and replays/ of /verif are only written by runs against the registered tree; runs against scratch
+    # copies (tools/try_patch.sh) redirect both so that committed evidence always describes the unchanged tree
+    evid_dir = os.environ.get('PBSYM_EVIDENCE_DIR') or os.path.join(ROOT, 'evidence')
+    repl_dir = os.environ.get('PBSYM_REPLAY_DIR') or os.path.join(ROOT, 'replays')
+    os.makedirs(evid_dir, exist_ok=True)
+    os.makedirs(repl_dir, exist_ok=True)
     digests, missing = source_digest(H.FUNCTIONS)
     lines = []
     inconclusive = []
@@ -196,8 +200,18 @@ def main(argv=None):
         tot['solver_s'] += r.get('solver_s', 0.0)
         if spec['mode'] == 'witness':
             if r.get('state') == 'counterexample':
-                samples.append({'condition': c['fn'], 'kind': 'reachability witness (tag %s)' % c.get('nontrivial'),
-                                'shard': spec['shard'], 'args': r['args']})
+                sample = {'condition': c['fn'], 'kind': 'reachability witness (tag %s)' % c.get('nontrivial'),
+                          'shard': spec['shard'], 'args': r['args']}
+                # the witness is also executed on the REAL code (stubs replaced by the real libraries): the oracle must
+                # hold there as it does in the model - a cheap end-to-end validation of the models on a non-trivial case
+                rp = run_replay(c.get('module') or modname, c['fn'], r['args'], spec['shard'], spec['bounds'])
+                sample['oracle_on_real_code'] = 'holds' if rp.get('violated') is False and 'replay harness error' not in str(rp.get('detail')) else str(rp.get('detail'))[:300]
+                if sample['oracle_on_real_code'] == 'holds':
+                    validated += 1
+                else:
+                    inconclusive.append('witness of %s %s: the oracle holds in the model but not on the real code: %s' % (
+                        c['fn'], spec['shard'], sample['oracle_on_real_code']))
+                samples.append(sample)
             else:
                 inconclusive.append('vacuity guard: no witness for %s %s: %s' % (
                     c['fn'], spec['shard'], (r.get('message') or '')[:300]))
@@ -216,7 +230,7 @@ def main(argv=None):
                         'shard': spec['shard'], 'bounds': spec['bounds'], 'solver_message': r.get('message'),
                         'replay_detail': rp.get('detail')}
                 h = hashlib.sha256(json.dumps(blob, sort_keys=True, default=repr).encode()).hexdigest()[:10]
-                path = os.path.join(ROOT, 'replays', '%s-%s.json' % (prop, h))
+                path = os.path.join(repl_dir, '%s-%s.json' % (prop, h))
                 json.dump(blob, open(path, 'w'), indent=1, default=repr)
                 violations.append((path, c['fn'], r['args'], rp.get('detail')))
             else:
@@ -241,7 +255,7 @@ def main(argv=None):
             blob = {'property': prop, 'module': modname, 'condition': e.get('name'), 'args': e.get('args'),
                     'smt': True, 'replay_detail': e.get('detail')}
             h = hashlib.sha256(json.dumps(blob, sort_keys=True, default=repr).encode()).hexdigest()[:10]
-            path = os.path.join(ROOT, 'replays', '%s-%s.json' % (prop, h))
+            path = os.path.join(repl_dir, '%s-%s.json' % (prop, h))
             json.dump(blob, open(path, 'w'), indent=1, default=repr)
             violations.append((path, e.get('name'), e.get('args'), e.get('detail')))
         else:
@@ -308,7 +322,7 @@ def main(argv=None):
         'wall_s': round(wall, 2),
         'violations': len(violations),
     }
-    json.dump(evidence, open(os.path.join(ROOT, 'evidence', prop + '.json'), 'w'), indent=1, default=repr)
+    json.dump(evidence, open(os.path.join(evid_dir, prop + '.json'), 'w'), indent=1, default=repr)
 
     print('%s %s: %d/%d obligations confirmed, %d paths, %d solver queries (%.1f s solver), wall %.1f s' % (
         prop, tier, n_conf, n_obl, tot['paths'], tot['queries'], tot['solver_s'], wall))
